@@ -13,7 +13,7 @@ import hv
 from hv import Case
 
 SPEC = {
-    "lean_modules": ["Honeycomb.Props.C12", "Honeycomb.Props.C12b", "Honeycomb.Props.C12c"],
+    "lean_modules": ["Honeycomb.Props.C12", "Honeycomb.Props.C12b", "Honeycomb.Props.C12c", "Honeycomb.Props.C12d"],
     "gen": ["grid"],
     "required_theorems": [
         "C12_grid2_WF", "C12_grid2_beta2", "C12_grid2_darts", "C12_grid2_faces", "C12_grid2_corners",
@@ -30,6 +30,7 @@ SPEC = {
         "C12_build2_split_ok", "C12_build2_split_total_wf", "C12_build3_ok", "C12_build3_total",
         "C12_ceil_count_of_bounds", "C12_ceil_count_rounding", "C12_ceil_count_rounding_all", "C12_ceil_count_exact",
         "C12_ceil_count_f64", "C12_ceil_count_f64_exact", "C12_ceil_count_f64_multiple", "C12_ceil_count_f64_one_short",
+        "C12_hex3_faces", "C12_hex3_edges", "C12_hex3_counts_all", "C12_hex3_euler", "C12_build3_split_unimplemented",
     ],
     "trusted_base": [
         "Lean 4.33 kernel; axioms propext, Classical.choice, Quot.sound only",
@@ -61,8 +62,9 @@ SPEC["not_proved"] = [
     "C12_ceil_count_f64_one_short exhibits floats (l = 1+2^-52, L = 3+2^-50) where the real builder builds 3 cells "
     "while ceil(L/l) = 4 (reproduced on the implementation; not an exact multiple, so outside the property's clause). "
     "Not modelled: overflow / subnormal quotients, NaN and infinite descriptor values",
-    "3-D hex grid: number of edges and of faces yielded by iter_edges / iter_faces (the two-sided face_id walk); "
-    "vertices, volumes, gluing, positions and well-formedness are proved, these two counts are compared on the box",
+    "tetrahedral split grid (3-D split_cells): not in the model because it is not in the code - it is "
+    "unimplemented!() in /repo (C12_build3_split_unimplemented proves the mirrored panic); there is no mesh to state "
+    "counts about. (The 3-D hex edge / face counts that used to be listed here are proved: C12_hex3_counts_all.)",
     "u32/usize wrap-around for grids with 2^32 darts or more is not modelled",
 ]
 
